@@ -234,7 +234,7 @@ pub fn test_case(c: &ReproCase, stats: &mut Stats) -> Result<(), String>
 
 pub fn strategy(max_rules: usize) -> impl Strategy<Value = ReproCase>
 {
-    let mix = OpMix { rule_edits: false, ruler_dir_damage: false, cleans: true, delete_leaf: false, swaps: 1 };
+    let mix = OpMix { rule_edits: false, ruler_dir_damage: false, cleans: true, delete_leaf: false, swaps: 1, dir_ops: 0 };
     (
         gen::graph_spec(max_rules, false).prop_map(|mut g| { for r in g.rules.iter_mut() { if r.n_targets < 2 && r.srcs.len() % 2 == 0 { r.n_targets = 2; } } g }),
         any::<u16>(), 0u8..8, any::<u16>(), any::<bool>(), gen::ops(mix, 5), prop_oneof![1 => Just(0u16), 1 => any::<u16>()],
